@@ -224,6 +224,9 @@ def run_listed(mcv):
     res = {"mcv": mcv, "viol": [], "judged": 0}
     for draw in range(3):
         _run_listed_once(chk, build, ev, sp, mcv, draw, res)
+    # a long run of the same event (bursts of identical events, a loop entering and
+    # leaving one region): what is legal once stays legal the 200th time
+    _run_listed_repeated(chk, build, ev, sp, mcv, res)
     # the thread states in which the model accepts events besides Running
     need = sp["models"].get(ev["model"], {}).get("need")
     states = {"active": ["cooling", "warming"], "any": ["cooling", "warming", "paused"]}.get(need, [])
@@ -277,6 +280,42 @@ def _run_listed_once(chk, build, ev, sp, mcv, draw, res, state=None):
                 res["viol"].append(("dump-decoding:" + mcv, "ovnidump prints %r for %s with %s, description gives %r"
                                     % (got, mcv, vals, want), {"mcv": mcv, "vals": vals}))
         return res
+    finally:
+        shutil.rmtree(wd, ignore_errors=True)
+
+
+def _run_listed_repeated(chk, build, ev, sp, mcv, res):
+    s_ = sp["events"].get(mcv)
+    rng = chk.rng(sum(ord(c) << (8 * k) for k, c in enumerate(mcv)), "rep")
+    ctx = context_for(ev, sp, rng)
+    if ctx is None:
+        return
+    pro, e, epi, vals = ctx
+    op = s_["op"] if s_ else None
+    if mcv == "OB.":
+        unit, pre, post = [e], [], []
+    elif mcv in ("OU[", "OF["):
+        unit, pre, post = [e, (mcv[:2] + "]", b"", False)], [], []
+    elif op == "push":
+        unit, pre, post = [e] + epi, pro, []
+    elif op == "ign":
+        unit, pre, post = [e], pro, epi
+    else:
+        return
+    n = rng.choice([101, 130, 257])
+    wd = os.path.join(chk.scratch, "r-%d" % os.getpid())
+    try:
+        base_trace(wd, pre + unit * n + post)
+        r = emu.emu(build, wd, timeout=60)
+        res["judged"] += 1
+        res["repeated"] = res.get("repeated", 0) + 1
+        if r.timeout:
+            return
+        if r.sig or r.rc not in (0, 1):
+            res["viol"].append(("listed-event-crash:%s:repeated" % mcv, "emulator crashed on %d repetitions of %s" % (n, mcv), r.brief()))
+        elif not emu.accepted(r):
+            res["viol"].append(("listed-event-rejected:%s:repeated" % mcv, "%d repetitions of the listed event %s (2 ns apart) are "
+                                "rejected although one is accepted: %s" % (n, mcv, emu.last_error(r)), r.brief()))
     finally:
         shutil.rmtree(wd, ignore_errors=True)
 
@@ -480,7 +519,8 @@ def main(argv):
     cov = {"evaluations": judged + nprobe, "distinct_nontrivial": len(evs) + len(set(c for c, _ in work)),
            "rule": "(1) every event listed by the build's ovnievents run once in a legal context constructed from the "
                    "frozen table (partner first for leave events, type/task created for task events, mark types declared), "
-                   "also with the thread Cooling / Warming (/ Paused) for the models that accept events in those states; "
+                   "also with the thread Cooling / Warming (/ Paused) for the models that accept events in those states, and "
+                   "enter/leave pairs, ignored events and bursts repeated 101-257 times 2 ns apart; "
                    "(2) every unlisted three-character code over the 94 printable characters in each of the eight models "
                    "as a one-event probe (empty payload and the payload sizes of listed events of that category), accepted "
                    "only inside the carve-outs (OB?, OU?, legacy codes accepted with a warning); (3) ovnidump line of each "
